@@ -333,7 +333,7 @@ pub fn run(ctx: &Ctx) -> Report {
     let mut r = ctx.rng("c12");
     let n = ctx.count(4_000, 100_000);
     for k in 0..n {
-        let seed = r.next();
+        let seed = ctx.scenario_seed(r.next());
         let mut sr = Rng::new(seed);
         let sc = gen_scenario(&mut sr, seed);
         let desc = sc.desc.clone();
